@@ -32,21 +32,21 @@ def run(chk: Check) -> None:
     for k, v in RULES.items():
         chk.rule(k, v)
     n = reference_sites(chk, "R09.1")
-    chk.floor("R09.1", "reference resolution sites", n, 8)
+    chk.floor("R09.1", "reference resolution sites", n, 5)
     from_protobuf_cache(chk, "R09.1")
     nb = lookup_bindings(chk, "R09.1")
     chk.floor("R09.1", "decoders handed a lookup callable", nb, 2)
     from .loader import deferred_stage
     deferred_stage(chk, "R09.2")
     n = stage_order(chk, "R09.2")
-    chk.floor("R09.2", "consumer stages", n, 6)
+    chk.floor("R09.2", "consumer stages", n, 4)
     own = ownership(chk.repo)
     k = 0
     for prop, rule, construct, ok, loc, msg, facts in own.obs:
         if rule == "R03.6":
             chk.ob("R09.3", construct, ok, loc, msg, facts)
             k += 1
-    chk.floor("R09.3", "loader registrations", k, 7)
+    chk.floor("R09.3", "loader registrations", k, 4)
     _lazy_auxdata(chk)
     from .lookups import truthiness_safe
     truthiness_safe(chk, "R09.1")
